@@ -31,6 +31,11 @@ theorem reads_spec (o : RegOfd) (ns : List Nat) :
       simp only [List.length_append, List.length_take, List.length_drop] at this
       omega
 
+theorem sum_replicate_nat (k n : Nat) : (List.replicate k n).sum = k * n := by
+  induction k with
+  | zero => simp
+  | succ m ih => rw [List.replicate_succ, List.sum_cons, ih]; simp [Nat.succ_mul]; omega
+
 theorem utf8_length_ge (cs : List Char) : cs.length ≤ (utf8 cs).length := by
   induction cs with
   | nil => simp [utf8]
